@@ -278,6 +278,46 @@ func (w *World) onlyVia(root, fn *ssa.Function, d int) bool {
 	return true
 }
 
+// soleEntry: when helper fn (unexported, not dynamically callable) is entered only from one function of the analysed
+// set - directly or through a chain of such helpers - that function; else fn itself. Facts taken with it as root
+// include what holds at fn's call sites.
+func (w *World) soleEntry(fn *ssa.Function, analysed []*ssa.Function) *ssa.Function {
+	in := map[*ssa.Function]bool{}
+	for _, f := range analysed {
+		in[f] = true
+	}
+	root := fn
+	for hop := 0; hop < 3; hop++ {
+		if root.Parent() != nil || !w.transparent(root) || w.dynCallable(root) {
+			break
+		}
+		sites := w.callSites(root)
+		if len(sites) == 0 {
+			break
+		}
+		var parent *ssa.Function
+		ok := true
+		for _, s := range sites {
+			p := s.Parent()
+			for p.Parent() != nil {
+				p = p.Parent()
+			}
+			if _, isCall := s.(*ssa.Call); !isCall || (parent != nil && p != parent) || !in[p] {
+				ok = false
+			}
+			parent = p
+		}
+		if !ok || parent == nil || parent == root {
+			break
+		}
+		root = parent
+	}
+	if root != fn && !w.inTree(root, fn) {
+		return fn
+	}
+	return root
+}
+
 // failurePropagates: g is root, or g's error result at its single call site in Tree(root) ends the caller with a
 // non-nil error, and so on up to root.
 func (w *World) failurePropagates(root, g *ssa.Function) bool {
